@@ -146,6 +146,10 @@ func c16Watch(h *bdHome) []string {
 }
 
 func c16Body(c *core.Ctx) {
+	if c.Mode == "storm" {
+		c16Storm(c)
+		return
+	}
 	if gate.Sysgate() == "" {
 		c.Inconclusive("sysgate not built")
 		return
@@ -451,9 +455,10 @@ func sockName(loc string) string {
 func init() {
 	core.Register(&core.Prop{ID: "C16", Level: "fault_enumeration", Body: c16Body, CrashKey: crashKeyGeneric, MinDistinct: 20,
 		Passes: func(tier string) []core.Pass {
-			return []core.Pass{{Name: "main", Mode: "pause", Shards: 16, Timeout: 60 * time.Minute}}
+			return []core.Pass{{Name: "main", Mode: "pause", Shards: 16, Timeout: 60 * time.Minute},
+				{Name: "storm", Mode: "storm", Shards: 16, Timeout: 60 * time.Minute}}
 		},
 		Exhaustive:  func(tier string) bool { return true },
-		Rule:        "Real `blackdagger start` (built from /repo) of a 2-step DAG with an exit handler; its watched system calls under the data directory, the log directory and its unix socket are numbered by the ptrace supervisor (about 50: log file, probe connect, history open/write, unlink+bind+listen of the socket, per-step log and status writes, socket teardown, compaction) and EVERY position k is used once: the first start is held before call k, a second `blackdagger start` (thorough: also `retry --req` of an earlier run, 1- and 3-step DAGs, release delays 50/300/900 ms) is launched while it is held, the first is released 300 ms after the second's first step began or after the second ended; plus the position after the first run has ended. Steps are child processes logging BEGIN/END with the run's request id and a monotonic clock (1.2 s each). Oracle: the history acquire(run)=first BEGIN / release(run)=last END is checked against a mutex model with porcupine (Illegal = two runs executed steps at the same time); a second start that exits non-zero must have executed nothing and recorded nothing, and the first run must then exit 0, complete all its steps and handler, and answer GET /status while its steps run; every run that executed steps is readable from the history. Two runs that do not overlap (the first was held before it had done anything) are legal. exhaustive=true refers to the enumeration of the first start's system-call positions. Non-trivial/distinct = (variant, k).",
+		Rule:        "Real `blackdagger start` (built from /repo) of a 2-step DAG with an exit handler; its watched system calls under the data directory, the log directory and its unix socket are numbered by the ptrace supervisor (about 50: log file, probe connect, history open/write, unlink+bind+listen of the socket, per-step log and status writes, socket teardown, compaction) and EVERY position k is used once: the first start is held before call k, a second `blackdagger start` (thorough: also `retry --req` of an earlier run, 1- and 3-step DAGs, release delays 50/300/900 ms) is launched while it is held, the first is released 300 ms after the second's first step began or after the second ended; plus the position after the first run has ended. Steps are child processes logging BEGIN/END with the run's request id and a monotonic clock (1.2 s each). Oracle: the history acquire(run)=first BEGIN / release(run)=last END is checked against a mutex model with porcupine (Illegal = two runs executed steps at the same time); a second start that exits non-zero must have executed nothing and recorded nothing, and the first run must then exit 0, complete all its steps and handler, and answer GET /status while its steps run; every run that executed steps is readable from the history. Two runs that do not overlap (the first was held before it had done anything) are legal. exhaustive=true refers to the enumeration of the first start's system-call positions. Non-trivial/distinct = (variant, k). Storm pass: 64 (640) rounds in which eight starters loop over 40 starts each of one DAG file with an 8 ms step (about 2 000 admitted runs per quick check): runs end and begin while other starters are anywhere in their admission sequence - interleavings of three and more processes that holding one process cannot make; same oracle (intervals of step execution per run never overlap, porcupine mutex model); nothing is decided by the harness here, so a change that needs one exact three-process order is found with a probability per check, not with certainty.",
 		Assumptions: []string{"while the supervisor holds the first process all its threads are stopped at their next system call (like a stopped process); its status endpoint is not asked then"}})
 }
